@@ -106,6 +106,9 @@ class Block:
                     if st.get("k") in ("IfStmt", "SwitchStmt", "WhileStmt", "ForStmt", "DoStmt"):
                         raise DataDependent(st, "helper %s branches on its arguments (%s)" % (g["qname"], self.facts.ntext(st["c"][0])[:80]))
                     sub.exec(st)
+        if k in ("CallExpr", "CXXMemberCallExpr") and not tbf.call_args(n):
+            # a parameterless library call (numeric_limits<T>::epsilon(), a constant accessor): an unknown constant
+            return sympy.Symbol("const<%s>" % self.facts.ntext(n)[:40], real=True)
         if k == "ConditionalOperator":
             raise DataDependent(n, "conditional value `%s`" % self.facts.ntext(n)[:100])
         raise AnalysisBroken("%s: expression form not supported by the algebra engine: %s" % (self.facts.loc(n), self.facts.ntext(n)[:80]))
